@@ -233,6 +233,19 @@ def N(t):
     return tstr(t)
 
 
+def flag_locals(body):
+    """User-declared bool locals that are assigned the constant `false` somewhere (mutable validity flags), found by
+    type and use rather than by name: {local index: name}."""
+    out = {}
+    for i, l in enumerate(body.locals):
+        if not (l.get('user') and l.get('name') and l['ty'] == 'bool'):
+            continue
+        vals = [written_value(body, s) for s in body.assigns(lambda pl, i=i: not pl['p'] and pl['l'] == i) if s.kind == 'assign']
+        if '0' in vals:
+            out[i] = l['name']
+    return out
+
+
 def guards_S(body, bb):
     """Dominating facts of a block as expanded strings (no let-bound local names), one string per dominating edge."""
     return [' | '.join(fact_s(f) for f in fs) for (_, _, fs) in body.dominating_facts(bb)]
